@@ -62,6 +62,16 @@ type Scenario struct {
 	// authorised uploads (restored tracks send media only, new tracks init and media); Raw: raw-segment mode
 	Restart bool `json:"restart,omitempty"`
 	Raw     bool `json:"raw,omitempty"`
+	// StartReg: all tracks but the last deliver init and segment 1; then (concurrent run) the MPD mutex is held, the
+	// master's segment 2 starts the channel (the channel goroutine waits for the mutex in its start-up derivation),
+	// the last track registers meanwhile, the mutex is released; then the remaining segments. manifest.mpd is read.
+	StartReg bool `json:"startreg,omitempty"`
+	// LateFirst (sequential reference of StartReg): the last track registers before the master's segment 2
+	LateFirst bool `json:"latefirst,omitempty"`
+	// OpenStart: shifted channel (mfhd numbers 8090.. against time/duration 449002889..): the second segment of
+	// the second track is opened (request started, body not yet sent) before the master's second segment starts
+	// the channel and is sent afterwards (sequential reference: sent completely before the master's second segment)
+	OpenStart bool `json:"openstart,omitempty"`
 }
 
 type Outcome struct {
@@ -83,6 +93,50 @@ type Outcome struct {
 	Latest  map[string]uint32              `json:"latest,omitempty"`
 	// Feed scenarios: per channel, the summary of manifest_timeline_nr.mpd after every number
 	MPDTrace map[string][]string `json:"mpd_trace,omitempty"`
+	// manifest.mpd of every channel: id, bandwidth and frame rate of every Representation
+	Manifest map[string]string `json:"manifest,omitempty"`
+}
+
+func manifestSummary(storage, chn string) string {
+	data, err := os.ReadFile(filepath.Join(storage, chn, "manifest.mpd"))
+	if err != nil {
+		return "none"
+	}
+	m, err := mpd.MPDFromBytes(data)
+	if err != nil || len(m.Periods) != 1 {
+		return "not-a-complete-document"
+	}
+	var l []string
+	for _, as := range m.Periods[0].AdaptationSets {
+		for _, r := range as.Representations {
+			l = append(l, fmt.Sprintf("%s:bw=%d:fr=%s", r.Id, r.Bandwidth, r.FrameRate))
+		}
+	}
+	sort.Strings(l)
+	return strings.Join(l, " ")
+}
+
+// segment with mfhd number seqIn and time timeNr * duration (a shifted channel when they differ)
+func segmentAt(tr Track, seqIn uint32, timeNr uint64) []byte {
+	data, err := os.ReadFile(filepath.Join(testdata, tr.Asset, "0"+tr.Ext))
+	if err != nil {
+		panic(err)
+	}
+	f, err := mp4.DecodeFile(bytes.NewReader(data))
+	if err != nil {
+		panic(err)
+	}
+	seg := f.Segments[0]
+	for _, fr := range seg.Fragments {
+		fr.Moof.Mfhd.SequenceNumber = seqIn
+		dur := fr.Moof.Traf.Trun.Duration(fr.Moof.Traf.Tfhd.DefaultSampleDuration)
+		fr.Moof.Traf.Tfdt.SetBaseMediaDecodeTime(timeNr * dur)
+	}
+	var buf bytes.Buffer
+	if err := seg.Encode(&buf); err != nil {
+		panic(err)
+	}
+	return buf.Bytes()
 }
 
 // summary of a channel's timeline MPD: per adaptation set startNumber, first t and number of listed segments
@@ -139,10 +193,14 @@ type gatedReader struct {
 	pos    int
 	g      *gate
 	passed bool
+	atZero bool // stop before the first byte instead of half-way
 }
 
 func (r *gatedReader) Read(p []byte) (int, error) {
 	half := len(r.data) / 2
+	if r.atZero {
+		half = 0
+	}
 	if !r.passed && r.pos >= half {
 		r.passed = true
 		r.g.arrive()
@@ -356,6 +414,90 @@ func runOnce(si, round int, sc Scenario) Outcome {
 		close(go_)
 		rw.Wait()
 	}
+	if sc.StartReg {
+		chn := sc.Channels[0]
+		n := len(sc.Tracks)
+		late := sc.Tracks[n-1]
+		for _, tr := range sc.Tracks[:n-1] {
+			count(put(rcv.Router, fmt.Sprintf("/upload/%s/%s/init%s", chn, tr.Name, tr.Ext), inits[tr.Name], sc.Auth))
+			count(put(rcv.Router, fmt.Sprintf("/upload/%s/%s/1%s", chn, tr.Name, tr.Ext), segs[tr.Name], sc.Auth))
+		}
+		rcv.Sync(chn)
+		master := sc.Tracks[0]
+		if sc.Sequential && sc.LateFirst {
+			count(put(rcv.Router, fmt.Sprintf("/upload/%s/%s/init%s", chn, late.Name, late.Ext), inits[late.Name], sc.Auth))
+			count(put(rcv.Router, fmt.Sprintf("/upload/%s/%s/2%s", chn, master.Name, master.Ext), segment(master, 2), sc.Auth))
+		} else if sc.Sequential {
+			count(put(rcv.Router, fmt.Sprintf("/upload/%s/%s/2%s", chn, master.Name, master.Ext), segment(master, 2), sc.Auth))
+			rcv.Sync(chn)
+			count(put(rcv.Router, fmt.Sprintf("/upload/%s/%s/init%s", chn, late.Name, late.Ext), inits[late.Name], sc.Auth))
+		} else {
+			release, _ := rcv.HoldMPD(chn)
+			count(put(rcv.Router, fmt.Sprintf("/upload/%s/%s/2%s", chn, master.Name, master.Ext), segment(master, 2), sc.Auth))
+			time.Sleep(20 * time.Millisecond) // the channel goroutine is in its start-up derivation, waiting for the mutex
+			var lw sync.WaitGroup
+			lw.Add(1)
+			go func() {
+				defer lw.Done()
+				count(put(rcv.Router, fmt.Sprintf("/upload/%s/%s/init%s", chn, late.Name, late.Ext), inits[late.Name], sc.Auth))
+			}()
+			time.Sleep(20 * time.Millisecond)
+			release()
+			lw.Wait()
+		}
+		rcv.Sync(chn)
+		for _, tr := range sc.Tracks[1 : n-1] {
+			count(put(rcv.Router, fmt.Sprintf("/upload/%s/%s/2%s", chn, tr.Name, tr.Ext), segment(tr, 2), sc.Auth))
+		}
+		count(put(rcv.Router, fmt.Sprintf("/upload/%s/%s/1%s", chn, late.Name, late.Ext), segs[late.Name], sc.Auth))
+		rcv.Sync(chn)
+	}
+	if sc.OpenStart {
+		chn := sc.Channels[0]
+		const in0, t0 = 8090, 449002889
+		for _, tr := range sc.Tracks {
+			count(put(rcv.Router, fmt.Sprintf("/upload/%s/%s/init%s", chn, tr.Name, tr.Ext), inits[tr.Name], sc.Auth))
+		}
+		for _, tr := range sc.Tracks {
+			count(put(rcv.Router, fmt.Sprintf("/upload/%s/%s/%d%s", chn, tr.Name, in0, tr.Ext), segmentAt(tr, in0, t0), sc.Auth))
+		}
+		rcv.Sync(chn)
+		master, other := sc.Tracks[0], sc.Tracks[1:]
+		if sc.Sequential {
+			for _, tr := range other {
+				count(put(rcv.Router, fmt.Sprintf("/upload/%s/%s/%d%s", chn, tr.Name, in0+1, tr.Ext), segmentAt(tr, in0+1, t0+1), sc.Auth))
+			}
+			count(put(rcv.Router, fmt.Sprintf("/upload/%s/%s/%d%s", chn, master.Name, in0+1, master.Ext), segmentAt(master, in0+1, t0+1), sc.Auth))
+		} else {
+			g := newGate(1 << 30) // opened by hand (or by its timer)
+			var ow sync.WaitGroup
+			for _, tr := range other {
+				ow.Add(1)
+				go func(tr Track) {
+					defer ow.Done()
+					body := segmentAt(tr, in0+1, t0+1)
+					req := httptest.NewRequest(http.MethodPut, fmt.Sprintf("/upload/%s/%s/%d%s", chn, tr.Name, in0+1, tr.Ext), &gatedReader{data: body, g: g, atZero: true})
+					req.ContentLength = int64(len(body))
+					req.Header.Set("Content-Length", strconv.Itoa(len(body)))
+					rr := httptest.NewRecorder()
+					rcv.Router.ServeHTTP(rr, req)
+					count(rr.Code)
+				}(tr)
+			}
+			time.Sleep(20 * time.Millisecond) // the uploads are open: the handlers wait for the first byte
+			count(put(rcv.Router, fmt.Sprintf("/upload/%s/%s/%d%s", chn, master.Name, in0+1, master.Ext), segmentAt(master, in0+1, t0+1), sc.Auth))
+			rcv.Sync(chn) // the channel has started (shifted)
+			g.open()
+			ow.Wait()
+		}
+		rcv.Sync(chn)
+		for k := uint32(2); k <= 3; k++ {
+			for _, tr := range sc.Tracks {
+				count(put(rcv.Router, fmt.Sprintf("/upload/%s/%s/%d%s", chn, tr.Name, in0+k, tr.Ext), segmentAt(tr, in0+k, t0+uint64(k)), sc.Auth))
+			}
+		}
+		rcv.Sync(chn)
+	}
 	if sc.Backlog {
 		chn := sc.Channels[0]
 		seg := func(tr Track, nr uint32) []byte { return segment(tr, nr) }
@@ -414,7 +556,7 @@ func runOnce(si, round int, sc Scenario) Outcome {
 		mu.Unlock()
 	}
 	for _, chn := range sc.Channels {
-		if sc.Backlog || sc.Feed > 0 || sc.Restart {
+		if sc.Backlog || sc.Feed > 0 || sc.Restart || sc.StartReg || sc.OpenStart {
 			break
 		}
 		for _, tr := range sc.Tracks {
@@ -436,6 +578,10 @@ func runOnce(si, round int, sc Scenario) Outcome {
 	wg.Wait()
 	for _, chn := range sc.Channels {
 		rcv.Sync(chn)
+	}
+	out.Manifest = map[string]string{}
+	for _, chn := range sc.Channels {
+		out.Manifest[chn] = manifestSummary(storage, chn)
 	}
 	out.Buffers = map[string]map[string][]uint32{}
 	out.Latest = map[string]uint32{}
